@@ -9,6 +9,7 @@ type TxSpec struct {
 	Modes    []SigMode `json:"modes,omitempty"`     // per signer
 	SeqDelta []int     `json:"seq_delta,omitempty"` // per signer offset to the on-chain sequence (adversarial)
 	BadChain bool      `json:"bad_chain,omitempty"`
+	Timeout  int       `json:"timeout,omitempty"` // timeout_height relative to the height of the block that carries the transaction (negative: already passed)
 	Granter  string    `json:"granter,omitempty"` // the transaction's fee_granter field (no fee allowance exists anywhere in the simulated chain)
 	FeeAmt   string    `json:"fee,omitempty"` // default 2000
 	FeeDen   string    `json:"fee_denom,omitempty"`
